@@ -88,26 +88,6 @@ theorem LeafEq.set_eq {o : LeafOps α} (h : LeafEq o) {d s : α} : o.set d s = s
   · simp [(h.eq_iff d s).mp e]
   · simp [e]
 
-/-- Go's `==` implies identity on the primitives satisfying `Q`, and zero values satisfy `Q`: what
-    the primitive key/value branch of copy<Multimap> (`if dst != src`) needs -/
-structure LeafSame (Q : α → Prop) (o : LeafOps α) : Prop where
-  same_imp : ∀ a b, Q a → Q b → o.same a b = true → a = b
-  zero_ok : ∀ a, Q a → Q (o.zero a)
-
-mutual
-theorem zero_mapPrims (Q : α → Prop) (o : LeafOps α) : ∀ v : Value α, (zero o v).MapPrims Q := by
-  intro v
-  cases v with
-  | struct fs => exact zeroFields_mapPrims Q o fs
-  | _ => simp [zero, Value.MapPrims, Values.MapPrims, Pairs.MapPrims]
-theorem zeroFields_mapPrims (Q : α → Prop) (o : LeafOps α) :
-    ∀ v : Fields α, (zeroFields o v).MapPrims Q := by
-  intro v
-  cases v with
-  | nil => simp [zeroFields, Fields.MapPrims]
-  | cons p v r => exact ⟨zero_mapPrims Q o v, zeroFields_mapPrims Q o r⟩
-end
-
 mutual
 theorem data_copyNew {o : LeafOps α} (h : LeafEq o) :
     ∀ v : Value α, data (copyNew o v) = data v := by
@@ -172,36 +152,17 @@ theorem isEqual_data {o : LeafOps α} (h : LeafEq o) {x y : Value α} (e : isEqu
     data x = data y :=
   (isEqual_iff_data (P := fun _ => True) (fun a b _ _ => h.eq_iff a b) x y (all_true x) (all_true y)).mp e
 
-/-- when copy<Multimap> keeps the destination's key/value, it holds the source's data -/
-theorem keepElem_data {Q : α → Prop} {o : LeafOps α} (h : LeafEq o) (hq : LeafSame Q o)
-    {x y : Value α} (hx : ∀ a, x = .leaf a → Q a) (hy : ∀ a, y = .leaf a → Q a)
-    (e : keepElem o x y = true) : data x = data y := by
-  cases x with
-  | leaf a => cases y with
-    | leaf b =>
-      simp only [keepElem] at e
-      rw [hq.same_imp a b (hx a rfl) (hy b rfl) e]
-    | _ => exact isEqual_data h (by simpa [keepElem] using e)
-  | _ => exact isEqual_data h (by simpa [keepElem] using e)
-
-theorem zero_leafQ {Q : α → Prop} {o : LeafOps α} (hq : LeafSame Q o) {y : Value α}
-    (hy : ∀ a, y = .leaf a → Q a) : ∀ a, zero o y = .leaf a → Q a := by
-  intro a e
-  cases y <;> simp [zero] at e
-  subst e
-  exact hq.zero_ok _ (hy _ rfl)
-
 mutual
-theorem data_copyFrom {Q : α → Prop} {o : LeafOps α} (h : LeafEq o) (hq : LeafSame Q o) :
-    ∀ s d : Value α, s.MapPrims Q → d.MapPrims Q → data (copyFrom o d s) = data s := by
-  intro s d hs hd
+theorem data_copyFrom {o : LeafOps α} (h : LeafEq o) :
+    ∀ s d : Value α, data (copyFrom o d s) = data s := by
+  intro s d
   cases s with
   | leaf x => cases d with
     | leaf y => simp only [copyFrom, data]; rw [h.set_eq]
     | _ => simp [copyFrom, copyNew]
   | null => cases d <;> simp [copyFrom, copyNew]
   | struct ss => cases d with
-    | struct ds => simp only [copyFrom, data]; rw [data_copyFromFields h hq ss ds hs hd]
+    | struct ds => simp only [copyFrom, data]; rw [data_copyFromFields h ss ds]
     | _ => simp only [copyFrom]; exact data_copyNew h _
   | none => cases d <;> simp [copyFrom]
   | choice j w => cases w with
@@ -216,10 +177,10 @@ theorem data_copyFrom {Q : α → Prop} {o : LeafOps α} (h : LeafEq o) (hq : Le
       | _ => simp [copyFrom]
     | null => cases d <;> simp [copyFrom, copyNew, zero]
     | struct ss =>
-      have i0 := data_copyFrom h hq (.struct ss) (zero o (.struct ss)) hs (zero_mapPrims Q o _)
+      have i0 := data_copyFrom h (.struct ss) (zero o (.struct ss))
       cases d with
       | choice k dd =>
-        have i1 := data_copyFrom h hq (.struct ss) dd hs hd
+        have i1 := data_copyFrom h (.struct ss) dd
         simp only [copyFrom]
         by_cases e : k = j <;> simp only [e, if_true, if_false] <;> apply data_choice <;> assumption
       | _ => simp only [copyFrom]; exact data_choice _ i0
@@ -227,50 +188,49 @@ theorem data_copyFrom {Q : α → Prop} {o : LeafOps α} (h : LeafEq o) (hq : Le
       | choice k dd => simp [copyFrom]
       | _ => simp [copyFrom]
     | choice i u =>
-      have i0 := data_copyFrom h hq (.choice i u) (zero o (.choice i u)) hs (zero_mapPrims Q o _)
+      have i0 := data_copyFrom h (.choice i u) (zero o (.choice i u))
       cases d with
       | choice k dd =>
-        have i1 := data_copyFrom h hq (.choice i u) dd hs hd
+        have i1 := data_copyFrom h (.choice i u) dd
         simp only [copyFrom]
         by_cases e : k = j <;> simp only [e, if_true, if_false] <;> apply data_choice <;> assumption
       | _ => simp only [copyFrom]; exact data_choice _ i0
     | arr es =>
-      have i0 := data_copyFrom h hq (.arr es) (zero o (.arr es)) hs (zero_mapPrims Q o _)
+      have i0 := data_copyFrom h (.arr es) (zero o (.arr es))
       cases d with
       | choice k dd =>
-        have i1 := data_copyFrom h hq (.arr es) dd hs hd
+        have i1 := data_copyFrom h (.arr es) dd
         simp only [copyFrom]
         by_cases e : k = j <;> simp only [e, if_true, if_false] <;> apply data_choice <;> assumption
       | _ => simp only [copyFrom]; exact data_choice _ i0
     | mmap ps =>
-      have i0 := data_copyFrom h hq (.mmap ps) (zero o (.mmap ps)) hs (zero_mapPrims Q o _)
+      have i0 := data_copyFrom h (.mmap ps) (zero o (.mmap ps))
       cases d with
       | choice k dd =>
-        have i1 := data_copyFrom h hq (.mmap ps) dd hs hd
+        have i1 := data_copyFrom h (.mmap ps) dd
         simp only [copyFrom]
         by_cases e : k = j <;> simp only [e, if_true, if_false] <;> apply data_choice <;> assumption
       | _ => simp only [copyFrom]; exact data_choice _ i0
   | arr ss => cases d with
-    | arr ds => simp only [copyFrom, data]; rw [data_copyFromValues h hq ss ds hs hd]
+    | arr ds => simp only [copyFrom, data]; rw [data_copyFromValues h ss ds]
     | _ => simp only [copyFrom]; exact data_copyNew h _
   | mmap ss => cases d with
-    | mmap ds => simp only [copyFrom, data]; rw [data_copyFromPairs h hq ss ds hs hd]
+    | mmap ds => simp only [copyFrom, data]; rw [data_copyFromPairs h ss ds]
     | _ => simp only [copyFrom]; exact data_copyNew h _
-theorem data_copyFromFields {Q : α → Prop} {o : LeafOps α} (h : LeafEq o) (hq : LeafSame Q o) :
-    ∀ s d : Fields α, s.MapPrims Q → d.MapPrims Q →
-      dataFields (copyFromFields o d s) = dataFields s := by
-  intro s d hs hd
+theorem data_copyFromFields {o : LeafOps α} (h : LeafEq o) :
+    ∀ s d : Fields α, dataFields (copyFromFields o d s) = dataFields s := by
+  intro s d
   cases s with
   | nil => cases d <;> simp [copyFromFields]
   | cons sp sv sr =>
     cases d with
     | nil =>
-      have ir := data_copyFromFields h hq sr .nil hs.2 trivial
+      have ir := data_copyFromFields h sr .nil
       have iv := data_copyNew h sv
       cases sp <;> simp [copyFromFields, dataFields, ir, iv]
     | cons dp dv dr =>
-      have ir := data_copyFromFields h hq sr dr hs.2 hd.2
-      have iv := data_copyFrom h hq sv dv hs.1 hd.1
+      have ir := data_copyFromFields h sr dr
+      have iv := data_copyFrom h sv dv
       cases sp with
       | absent =>
         cases sv <;> cases dv <;> cases dp <;> simp [copyFromFields, dataFields, ir]
@@ -285,48 +245,41 @@ theorem data_copyFromFields {Q : α → Prop} {o : LeafOps α} (h : LeafEq o) (h
           | _ => simp only [copyFromFields, dataFields, ir, iv]
         | _ => simp only [copyFromFields, dataFields, ir, iv]
       | req => simp only [copyFromFields, dataFields, ir, iv]
-theorem data_copyFromValues {Q : α → Prop} {o : LeafOps α} (h : LeafEq o) (hq : LeafSame Q o) :
-    ∀ s d : Values α, s.MapPrims Q → d.MapPrims Q →
-      dataValues (copyFromValues o d s) = dataValues s := by
-  intro s d hs hd
+theorem data_copyFromValues {o : LeafOps α} (h : LeafEq o) :
+    ∀ s d : Values α, dataValues (copyFromValues o d s) = dataValues s := by
+  intro s d
   cases s with
   | nil => cases d <;> simp [copyFromValues]
   | cons sv sr =>
     cases d with
     | nil =>
       simp only [copyFromValues, dataValues]
-      rw [data_copyFromValues h hq sr .nil hs.2 trivial,
-        data_copyFrom h hq sv _ hs.1 (zero_mapPrims Q o _)]
+      rw [data_copyFromValues h sr .nil, data_copyFrom h sv _]
     | cons dv dr =>
       simp only [copyFromValues, dataValues]
-      rw [data_copyFromValues h hq sr dr hs.2 hd.2, data_copyFrom h hq sv dv hs.1 hd.1]
-theorem data_copyFromPairs {Q : α → Prop} {o : LeafOps α} (h : LeafEq o) (hq : LeafSame Q o) :
-    ∀ s d : Pairs α, s.MapPrims Q → d.MapPrims Q →
-      dataPairs (copyFromPairs o d s) = dataPairs s := by
-  intro s d hs hd
+      rw [data_copyFromValues h sr dr, data_copyFrom h sv dv]
+theorem data_copyFromPairs {o : LeafOps α} (h : LeafEq o) :
+    ∀ s d : Pairs α, dataPairs (copyFromPairs o d s) = dataPairs s := by
+  intro s d
   cases s with
   | nil => cases d <;> simp [copyFromPairs]
   | cons sk sv sr =>
-    have guarded : ∀ (x y : Value α), (∀ a, x = .leaf a → Q a) → (∀ a, y = .leaf a → Q a) →
-        data (copyFrom o x y) = data y →
+    -- when copy<Multimap> keeps the destination's key/value, it already holds the source's data
+    have guarded : ∀ (x y : Value α), data (copyFrom o x y) = data y →
         data (if keepElem o x y = true then x else copyFrom o x y) = data y := by
-      intro x y hx hy ih
+      intro x y ih
       by_cases e : keepElem o x y = true
-      · simp only [e, if_true]; exact keepElem_data h hq hx hy e
+      · simp only [e, if_true]; exact isEqual_data h e
       · simp only [e]; exact ih
-    obtain ⟨⟨hsk, hsv, hsr⟩, qsk, qsv⟩ := hs
     cases d with
     | nil =>
       simp only [copyFromPairs, dataPairs]
-      rw [data_copyFromPairs h hq sr .nil hsr trivial,
-        guarded _ sk (zero_leafQ hq qsk) qsk (data_copyFrom h hq sk _ hsk (zero_mapPrims Q o _)),
-        guarded _ sv (zero_leafQ hq qsv) qsv (data_copyFrom h hq sv _ hsv (zero_mapPrims Q o _))]
+      rw [data_copyFromPairs h sr .nil, guarded _ sk (data_copyFrom h sk _),
+        guarded _ sv (data_copyFrom h sv _)]
     | cons dk dv dr =>
-      obtain ⟨⟨hdk, hdv, hdr⟩, qdk, qdv⟩ := hd
       simp only [copyFromPairs, dataPairs]
-      rw [data_copyFromPairs h hq sr dr hsr hdr,
-        guarded dk sk qdk qsk (data_copyFrom h hq sk dk hsk hdk),
-        guarded dv sv qdv qsv (data_copyFrom h hq sv dv hsv hdv)]
+      rw [data_copyFromPairs h sr dr, guarded dk sk (data_copyFrom h sk dk),
+        guarded dv sv (data_copyFrom h sv dv)]
 end
 
 /-! ### same data -> IsEqual, needing the leaf law on one side only -/
@@ -523,18 +476,7 @@ theorem primEqual_iff (a b : PrimVal) : primEqual a b = true ↔ a = b := by
   cases a <;> cases b <;>
     simp [primEqual, Gen.uint64Equal, Gen.int64Equal, Gen.boolEqual, Gen.float64Equal, strEqual]
 
-theorem primSame_imp (a b : PrimVal) (ha : a.notNegZero) (hb : b.notNegZero)
-    (h : primSame a b = true) : a = b := by
-  cases a <;> cases b <;> simp [primSame] at h ⊢ <;> first | exact h | exact Flt.eq_imp ha hb h
-
 /-- pkg.*Equal is exact on all primitives (Float64Equal: bit patterns) -/
 theorem primEq : LeafEq primOps := ⟨primEqual_iff⟩
-
-/-- Go's `==` is exact unless a negative zero is involved -/
-theorem primSameOk : LeafSame PrimVal.notNegZero primOps where
-  same_imp a b ha hb h := primSame_imp a b ha hb h
-  zero_ok a _ := by
-    cases a <;> simp [primOps, primZero, PrimVal.notNegZero]
-    decide
 
 end Stef.Cmp
